@@ -397,6 +397,43 @@ pub fn family(tier: Tier) -> Vec<Spec> {
             }
         }
     }
+    // the full cross product of definition-level options on a few texts: kind x literal type x
+    // ignore(case) x priority x callback x lexer mode x competitor (options interact: an option
+    // that is handled on one path is easily forgotten on its sibling)
+    for text in ["ab", "k", "a.b", "é"] {
+        for kind in [Kind::Token, Kind::Regex, Kind::Skip] {
+            for bytes_lit in [false, true] {
+                for icase in [false, true] {
+                    for prio in [None, Some(3usize), Some(50)] {
+                        for cb in [false, true] {
+                            for utf8 in [true, false] {
+                                for comp in 0..3 {
+                                    let lit = if bytes_lit { Lit::Bytes(text.as_bytes().to_vec()) } else { Lit::Str(text.to_string()) };
+                                    let mut p = Pat::new(kind, lit);
+                                    p.icase = icase;
+                                    p.priority = prio;
+                                    if cb {
+                                        p.callback = Some("|_| ()".to_string());
+                                    }
+                                    let mut pats = vec![p];
+                                    match comp {
+                                        0 => {
+                                            if kind == Kind::Skip {
+                                                pats.push(Pat::token("zz"));
+                                            }
+                                        }
+                                        1 => pats.push(Pat::regex("[a-zA-Zé.]+")),
+                                        _ => pats.insert(0, Pat::regex("[a-zA-Zé.]+").prio(3)),
+                                    }
+                                    specs.push(Spec::new(utf8, pats));
+                                }
+                            }
+                        }
+                    }
+                }
+            }
+        }
+    }
     // the same with DEFAULT priorities only: a chain a+, aa+, aaa+, ... has pairwise different
     // default priorities and every member matches the token a^n, which outranks them all
     for n in 5..=nmax {
